@@ -62,11 +62,27 @@ class Color(enum.IntEnum):
     RED = 1
 
 
+class BadRepr:
+    """its repr raises: refusing it must still be a TypeError"""
+    def __repr__(self):
+        raise RuntimeError("repr of BadRepr")
+
+
+class LoudRepr:
+    """its repr has a side effect: refusing it must not run it"""
+    calls = 0
+
+    def __repr__(self):
+        LoudRepr.calls += 1
+        return "<loud>"
+
+
 NT = collections.namedtuple("NT", "a b")
 OTHERS = [lambda r: [1, 2], lambda r: {"a": 1}, lambda r: {1, 2}, lambda r: bytearray(b"ab"), lambda r: object(),
           lambda r: MyInt(5), lambda r: MyStr("x"), lambda r: MyTuple((1, 2)), lambda r: MyFloat(1.5),
           lambda r: MyFset([1]), lambda r: MyBytes(b"zz"), lambda r: Color.RED, lambda r: NT(1, 2),
-          lambda r: len, lambda r: int, lambda r: sys, lambda r: range(3), lambda r: memoryview(b"a")]
+          lambda r: len, lambda r: int, lambda r: sys, lambda r: range(3), lambda r: memoryview(b"a"),
+          lambda r: BadRepr(), lambda r: LoudRepr()]
 LENS = [0, 1, 2, 3, 4, 5, 6, 17, 254, 255, 256, 257, 300, 1000]
 BIGLENS = [2999, 3000, 3001, 63994, 63995, 63996, 64000, 64001, 65535, 65536, 70000]
 INTS = [0, 1, -1, -0x30, -0x31, -0x2f, 0x9f, 0xa0, 0xa1, 255, 256, -256, 2**31, 2**32, -2**63, 2**64,
@@ -222,8 +238,12 @@ def short(o, n=160):
         sys.set_int_max_str_digits(0)
         try:
             s = repr(o)
+        except Exception:
+            s = "<%s: repr raises>" % type(o).__name__
         finally:
             sys.set_int_max_str_digits(MAXD)
+    except Exception:
+        s = "<%s: repr raises>" % type(o).__name__
     return s if len(s) <= n else s[:n] + "...(%d chars)" % len(s)
 
 
@@ -252,7 +272,22 @@ def impl_load(bs):
         _audit["on"] = False
 
 
+REPR_DURING_DUMP = [0]
+
+
 def impl_dump(v):
+    before = LoudRepr.calls
+    try:
+        return ("ok", brine.dump(v))
+    except RecursionError:
+        return ("recursion", None)
+    except Exception as e:
+        return ("exc", C.exc_enum(e))
+    finally:
+        REPR_DURING_DUMP[0] += LoudRepr.calls - before
+
+
+def _impl_dump_old(v):
     try:
         return ("ok", brine.dump(v))
     except RecursionError:
@@ -375,6 +410,32 @@ def check_decode(ctx, model, blobs, sp):
                 ctx.tie_broken("correspondence:load", "bytes %s model %s" % (b.hex()[:120], mk))
 
 
+def deep_wide(ctx):
+    """nests whose tuples have 5 items (the one-byte-count form) at depths near the interpreter's recursion limit: whatever the
+    encoder manages to encode, the decoder must decode to the same value (compared by ==, which does not recurse in Python)"""
+    for width, depths in ((5, [100, 200, 300, 330, 360, 400, 450, 480]), (2, [100, 300, 480]), (300, [50, 200, 330])):
+        for d in depths:
+            v = tuple(range(width))
+            for _ in range(d):
+                v = (v,) + tuple(range(width - 1))
+            case = {"deep_wide": [width, d]}
+            ctx.case(("deep", width, d), nontrivial=True, sample=case)
+            ctx.count("deep-nest:width-%d" % width)
+            try:
+                ok = brine.dumpable(v)
+                b = brine.dump(v)
+            except RecursionError:
+                ctx.count("deep-nest:encoder-hit-the-recursion-limit")
+                continue
+            try:
+                back = brine.load(b)
+                if back != v:
+                    ctx.violation("roundtrip-mismatch:deep-tuple", case, observed="different value", expected="the same value", what="load(dump(x)) differs from x for a deeply nested tuple")
+            except RecursionError:
+                ctx.violation("encodes-but-does-not-decode:deep-tuple:RecursionError", case, observed="RecursionError in load", expected="the same value",
+                              what="a nested tuple the encoder handles (depth %d, %d items per level) cannot be decoded: the decoder needs more stack per level" % (d, width))
+
+
 def gen_params():
     # the model parameter sp follows the generated fact (falls back to strict)
     return C.gen_fact("brine", "str_encode_surrogatepass", default=False)
@@ -404,6 +465,10 @@ def run(ctx):
             v = (v, 1)
         values.append(v)
     check_encode(ctx, model, values, sp)
+    deep_wide(ctx)
+    if REPR_DURING_DUMP[0]:
+        ctx.violation("refusal-runs-the-objects-repr", {"object": "LoudRepr"}, observed=REPR_DURING_DUMP[0], expected=0,
+                      what="refusing an unserializable object called its __repr__ (for a netref that is a remote call)")
     blobs = [b"", b"\x19\x0c\x61\x62\x63", b"\x1a\x0c\x61\x62\x61", b"\x08\x55", b"\x16\x03 1 ", b"\x16\x04+1_0", b"\x16\x021_", b"\x18\x00",
              b"\x15\xff\xff\xff\xff\x00", b"\x0d\x61", b"\x08\x0b\xed\xa0", b"\x08\x0c\xed\xa0\x80", b"\x19\x12\x55\x55", b"\x07", b"\xff", b"\x14"]
     for i in range(n_dec):
